@@ -370,7 +370,7 @@ func init() {
 			"with/without dialect and key) read by the real frame.Reader under three segmentations (all at once, byte by byte, random " +
 			"with zero-length reads) plus one pass with a transport error injected at a drawn offset; distinct = distinct history digest " +
 			"(stream bytes + configuration + every draw); non-trivial = the stream made the reader return at least one frame",
-		Nontrivial: func(r *dsim.Result) bool { return r.Probes["cov:frames-returned"] > 0 },
+		Nontrivial:    func(r *dsim.Result) bool { return r.Probes["cov:frames-returned"] > 0 },
 		ProbeUniverse: []string{"fault:transport-error", "fault:zero-length-read", "cov:clean-stream", "cov:frames-returned"},
 		Real:          []string{"pkg/frame.Reader", "pkg/dialect", "pkg/message", "pkg/x25"},
 		Stub:          []string{"transport (chunkReader: segmentation, EOF, injected error)"},
